@@ -19,8 +19,12 @@ func chanClosedNoBlock(ch <-chan struct{}) bool {
 	}
 }
 
-func c07Profile(variant string, faults bool, early bool) func(c *sim.RunCtx) {
+func c07Profile(variant string, faultsProfile bool, early bool, slow bool) func(c *sim.RunCtx) {
 	return func(c *sim.RunCtx) {
+		// (a copy per run: the judgement below switches it on for the profiles
+		// whose timed clauses do not apply, which must not leak into the
+		// profile's next run)
+		faults := faultsProfile
 		t := c.T.Plan
 		pp := drawPersistPlan(t, variant, faults, true)
 		cfg := pp.cfg
@@ -76,6 +80,18 @@ func c07Profile(variant string, faults bool, early bool) func(c *sim.RunCtx) {
 				e := w.e
 				m.data.OnSyncStart = func() {
 					msyncs = append(msyncs, &mediaSync{StartSeq: w.s.Steps, StartT: w.s.Now()})
+				}
+				if slow {
+					// a slow device: half of the Sync calls take between half and
+					// three minimum epoch intervals of simulated time
+					ft := c.T.Fault
+					m.data.SyncDelay = func() time.Duration {
+						if !ft.Chance(1, 2) {
+							return 0
+						}
+						c.Count("fault_slow_sync", 1)
+						return cfg.MinEpoch * time.Duration(1+ft.Choose(6)) / 2
+					}
 				}
 				m.data.OnSyncDone = func() {
 					if n := len(msyncs); n > 0 && msyncs[n-1].DoneSeq == 0 {
@@ -164,7 +180,7 @@ func c07Profile(variant string, faults bool, early bool) func(c *sim.RunCtx) {
 					// without any timer: "after any block release the state file is
 					// rewritten without waiting for that interval". There the retries
 					// only wait until every goroutine is blocked, never for a timer.
-					strict := !faults && !early
+					strict := !faults && !early && !slow
 					if strict {
 						for attempt := 0; attempt <= cfg.BlockCount()+1 && !c.Failed(); attempt++ {
 							w.onPutDone = func(op *storeOp, u *upload, err error) { perr = err }
@@ -209,6 +225,7 @@ func c07Profile(variant string, faults bool, early bool) func(c *sim.RunCtx) {
 		}
 		e := lt.w.e
 		m.data.OnSyncStart, m.data.OnSyncDone, m.dir.OnOp = nil, nil, nil
+		m.data.SyncDelay = nil
 		if cfg.WConfig {
 			e.routineG = e.group.firstG
 			c.Count("wconfig_runs", 1)
@@ -257,6 +274,30 @@ func c07Profile(variant string, faults bool, early bool) func(c *sim.RunCtx) {
 				}
 				prev = tr
 			}
+		}
+		if slow {
+			// With a slow device only the spacing survives of the timed
+			// statements ("plus the I/O time"): two data synchronisations never
+			// start closer together than the minimum epoch interval, however
+			// long the previous one took.
+			var prev *mediaSync
+			for _, r := range msyncs {
+				if e.shutdownSeq > 0 && r.StartSeq >= e.shutdownSeq {
+					break
+				}
+				if prev != nil {
+					c.Count("probe_media_interval_checked_slow_device", 1)
+					if r.StartT-prev.StartT < cfg.MinEpoch {
+						c.Fail("syncs-too-close", "two Sync calls on the (slow) data device started %v apart (at %v and %v, the earlier one took until %v), minimum epoch interval is %v", r.StartT-prev.StartT, prev.StartT, r.StartT, prev.DoneT, cfg.MinEpoch)
+						return
+					}
+					if prev.DoneT-prev.StartT >= cfg.MinEpoch {
+						c.Count("probe_sync_after_overrun_spaced", 1)
+					}
+				}
+				prev = r
+			}
+			faults = true
 		}
 		if early {
 			// the remaining timed checks need time to stand still while
@@ -466,11 +507,12 @@ func init() {
 		Prop:  "C07",
 		Level: "exploration",
 		Profiles: []sim.Profile{
-			{Name: "timed-flat", Weight: 3, Fn: c07Profile("flat", false, false)},
-			{Name: "timed-ac", Weight: 1, Fn: c07Profile("ac", false, false)},
-			{Name: "early-timers-flat", Weight: 3, Fn: c07Profile("flat", false, true)},
-			{Name: "faults-flat", Weight: 3, Fn: c07Profile("flat", true, false)},
-			{Name: "faults-hier", Weight: 1, Fn: c07Profile("hier", true, false)},
+			{Name: "timed-flat", Weight: 3, Fn: c07Profile("flat", false, false, false)},
+			{Name: "timed-ac", Weight: 1, Fn: c07Profile("ac", false, false, false)},
+			{Name: "early-timers-flat", Weight: 3, Fn: c07Profile("flat", false, true, false)},
+			{Name: "faults-flat", Weight: 3, Fn: c07Profile("flat", true, false, false)},
+			{Name: "faults-hier", Weight: 1, Fn: c07Profile("hier", true, false, false)},
+			{Name: "slow-device-flat", Weight: 2, Fn: c07Profile("flat", false, false, true)},
 		},
 		Components: map[string][]string{
 			"real": {"pkg/blobstore/configuration new_blob_access.go (W-config runs: the store is assembled by the unmodified NewBlobAccessFromConfiguration; top-level decorators, metrics wrappers, allocator collectors)", "pkg/blobstore/local: periodic syncer (both routines), persistent block list (wake-up channels, epochs, deferred releases), directory-backed state store, allocator, the store above them"},
